@@ -1213,6 +1213,24 @@ func (w *Walker) blockFacts0(fr *Frame, b *ssa.BasicBlock, depth int) []FactT {
 				out = append(out, ft)
 			}
 		}
+		// verdict == accepted with verdict the constant result of a helper (or a φ of such)
+		if bo, ok := fct.Cond.(*ssa.BinOp); ok && depth < 6 && (bo.Op == token.EQL || bo.Op == token.NEQ) && (bo.Op == token.EQL) == fct.Holds {
+			x, c := bo.X, bo.Y
+			if _, isC := x.(*ssa.Const); isC {
+				x, c = c, x
+			}
+			if cc, isC := c.(*ssa.Const); isC && cc.Value != nil && !cc.IsNil() && cc.Value.Kind() != constant.Bool {
+				switch x.(type) {
+				case *ssa.Call, *ssa.Extract, *ssa.Phi:
+					for _, ft := range w.valueEqualsFacts(fr, x, cc, depth+1) {
+						if ft.Where == token.NoPos {
+							ft.Where = fct.If.Pos()
+						}
+						out = append(out, ft)
+					}
+				}
+			}
+		}
 	}
 	for _, cf := range callFacts(b) {
 		ct := canon(&Term{Op: "call", Name: callName(cf.Call), Args: w.ts.callArgs(cf.Call, fr, 0, nil)})
@@ -1473,6 +1491,17 @@ func (w *Walker) boolValueFacts(fr *Frame, v ssa.Value, want bool, depth int) []
 	var out []FactT
 	for _, f := range expandCond(v, want, nil) {
 		out = append(out, FactT{Text: w.ts.Of(f.Cond, fr).LooseString(), Holds: f.Holds})
+		// verdict == accepted, with verdict the result of a helper that returns one of a few
+		// constants: what holds on the helper's returns that yield this constant
+		if bo, ok := f.Cond.(*ssa.BinOp); ok && depth < 4 && (bo.Op == token.EQL) == f.Holds && (bo.Op == token.EQL || bo.Op == token.NEQ) {
+			x, c := bo.X, bo.Y
+			if _, isC := x.(*ssa.Const); isC {
+				x, c = c, x
+			}
+			if cc, isC := c.(*ssa.Const); isC && cc.Value != nil && !cc.IsNil() && cc.Value.Kind() != constant.Bool {
+				out = append(out, w.valueEqualsFacts(fr, x, cc, depth+1)...)
+			}
+		}
 	}
 	// a call to another boolean helper
 	if c, ok := v.(*ssa.Call); ok && depth < 4 {
@@ -2375,4 +2404,119 @@ func throughField(v ssa.Value) bool {
 		return true
 	}
 	return false
+}
+
+// valueEqualsFacts: facts that hold when v equals the constant c, for v the result of an
+// irismod helper that returns constants (the facts common to its returns yielding c) or a
+// φ of such values (edges that contradict v == c are left out).
+func (w *Walker) valueEqualsFacts(fr *Frame, v ssa.Value, c *ssa.Const, depth int) []FactT {
+	if depth > 7 {
+		return nil
+	}
+	sameConst := func(a *ssa.Const) bool {
+		return a.Value != nil && c.Value != nil && a.Value.Kind() == c.Value.Kind() && constant.Compare(a.Value, token.EQL, c.Value)
+	}
+	intersect := func(common map[string]FactT, m map[string]FactT) map[string]FactT {
+		if common == nil {
+			return m
+		}
+		for k := range common {
+			if _, ok := m[k]; !ok {
+				delete(common, k)
+			}
+		}
+		return common
+	}
+	flat := func(common map[string]FactT) []FactT {
+		var out []FactT
+		for _, k := range sortedKeys(common) {
+			out = append(out, common[k])
+		}
+		return out
+	}
+	var call *ssa.Call
+	idx := 0
+	switch x := v.(type) {
+	case *ssa.Call:
+		call = x
+	case *ssa.Extract:
+		call, _ = x.Tuple.(*ssa.Call)
+		idx = x.Index
+	case *ssa.Phi:
+		var common map[string]FactT
+		feasible := 0
+		for i, e := range x.Edges {
+			if i >= len(x.Block().Preds) {
+				return nil
+			}
+			pred := x.Block().Preds[i]
+			if ec, ok := e.(*ssa.Const); ok && !sameConst(ec) {
+				continue
+			}
+			m := map[string]FactT{}
+			for _, ft := range w.blockFacts(fr, pred, 4) {
+				m[ft.String()] = ft
+			}
+			contradicts := false
+			if ifi, ok := pred.Instrs[len(pred.Instrs)-1].(*ssa.If); ok && len(pred.Succs) == 2 && pred.Succs[0] != pred.Succs[1] {
+				holds := pred.Succs[0] == x.Block()
+				for _, f := range expandCond(ifi.Cond, holds, ifi) {
+					ft := FactT{Text: w.ts.Of(f.Cond, fr).LooseString(), Holds: f.Holds}
+					m[ft.String()] = ft
+					// the edge is taken only when e != c
+					if bo, ok := f.Cond.(*ssa.BinOp); ok && (bo.Op == token.EQL || bo.Op == token.NEQ) {
+						if oc, isC := bo.Y.(*ssa.Const); isC && bo.X == e && sameConst(oc) && (bo.Op == token.EQL) != f.Holds {
+							contradicts = true
+						}
+					}
+				}
+			}
+			if contradicts {
+				continue
+			}
+			if _, isConst := e.(*ssa.Const); !isConst {
+				for _, ft := range w.valueEqualsFacts(fr, e, c, depth+1) {
+					m[ft.String()] = ft
+				}
+			}
+			feasible++
+			common = intersect(common, m)
+		}
+		if feasible == 0 {
+			return nil
+		}
+		return withEquivalents(flat(common))
+	}
+	if call == nil || call.Common().IsInvoke() {
+		return nil
+	}
+	g := call.Common().StaticCallee()
+	if g == nil || g.Blocks == nil || !isIrismodFunc(g) || onChain(fr, g) {
+		return nil
+	}
+	nfr := &Frame{Fn: g, Parent: fr, Call: call, Depth: fr.Depth + 1}
+	var common map[string]FactT
+	n := 0
+	for _, r := range returnsOf(g) {
+		if idx >= len(r.Results) {
+			return nil
+		}
+		rc, isC := r.Results[idx].(*ssa.Const)
+		if !isC {
+			return nil // a computed result: nothing is known
+		}
+		if !sameConst(rc) {
+			continue
+		}
+		m := map[string]FactT{}
+		for _, ft := range w.blockFacts(nfr, r.Block(), depth+1) {
+			m[ft.String()] = ft
+		}
+		common = intersect(common, m)
+		n++
+	}
+	if n == 0 {
+		return nil
+	}
+	return flat(common)
 }
